@@ -113,6 +113,12 @@ def _run(case, ctx, tmp):
     if ok:
         d = full_diff(full(R), full(H))
         ctx.check(not d, ("file", "hif", "+".join(d), cls), lambda: "got %r expected %r" % (full(R), full(H)))
+    # the same path written again with another network: the reader must return what the file holds now
+    ok, R = attempt(ctx, "hif-rewritten", lambda: (xgi.write_hif(O, p), xgi.read_hif(p))[1])
+    if ok:
+        d = full_diff(full(R), full(O))
+        ctx.check(not d, ("file", "hif", "stale-after-rewrite", "+".join(d)), lambda: "got %r expected %r" % (full(R), full(O)))
+    attempt(ctx, "hif-rewrite-back", lambda: xgi.write_hif(H, p))
     cn, ce = case.get("casts") or [None, None]
     nc, ec = resolve_cast(cn, nodes), resolve_cast(ce, edges)
     if nc is not None or ec is not None:
